@@ -1,7 +1,7 @@
 """C07 - sort and repair tools reorder without changing content; result loads (structural clauses)."""
 from __future__ import annotations
 
-from . import scopes, lib_mem
+from . import scopes, lib_mem, lib_kind
 from . import lib_order, lib_schema, lib_gate, lib_module, lib_py, lib_sweep
 
 LEVEL = "other"
@@ -34,5 +34,6 @@ def run(ctx):
     lib_module.parsed_used(ctx, P, only=ms)
     lib_py.kw_forward(ctx, py, mods=("tables",), only=ps)
     lib_py.unused_params(ctx, py, mods=("tables",), only=ps)
+    lib_kind.py_lints(ctx, py, mods=("tables",), only=ps)
     lib_py.ll_positional(ctx, py, P, only=ps)
     lib_mem.c_lints(ctx, ctx.program(), scopes.lib_scope("C07"))
